@@ -15,7 +15,8 @@ INTEG = ['sha1', 'sha256', 'sha512']
 PRF = ['sha1', 'sha256', 'sha512']
 DH = ['modp2048', 'modp3072', 'modp4096', 'modp6144', 'modp8192', 'ecp256', 'ecp384', 'ecp521']
 KDF = None          # set by the check: plan_eval.PlanKdf driven by spec/KeySchedule.tla
-HISTORY = ['add_A', 'rekey_child_B', 'rekey_ike_B', 'rekey_child_A', 'rekey_ike_A', 'add_B', 'rekey_child_B']
+# ... and then the IKE_SA is closed and a second one is negotiated on the SAME configuration objects: nothing of the first session may leak into it
+HISTORY = ['add_A', 'rekey_child_B', 'rekey_ike_B', 'rekey_child_A', 'rekey_ike_A', 'add_B', 'rekey_child_B', 'delete_ike_A', 'add_B', 'add_A', 'rekey_child_A']
 
 
 def ike_suites():
@@ -66,6 +67,8 @@ def run_history(cfg, ops, seed, kdf=None):
                 k = s.rekey_child(op[-1], which=len(done))
             elif op.startswith('rekey_ike_'):
                 k = s.rekey_ike(op[-1])
+            elif op.startswith('delete_ike_'):
+                k = s.delete_ike(op[-1])
             done.append((op, k))
             n = s.judge()
         if w.escapes or w.internal_errors:
@@ -107,7 +110,7 @@ def run(v, tier, for_c04=False):
                         replay={'kind': 'matrix', 'config': cfg, 'ops': [], 'seed': common.SEED + i})
     hist = history_configs(rnd, 40 if tier == 'quick' else 500)
     for i, cfg in enumerate(hist):
-        ops = HISTORY if tier == 'thorough' or i % 2 == 0 else HISTORY[:3]
+        ops = HISTORY if tier == 'thorough' or i % 2 == 0 else HISTORY[:3] + HISTORY[7:10]
         done, checks, n, err = run_history(cfg, ops, common.SEED + 1000 + i)
         evals += 1
         for k in totals:
